@@ -397,7 +397,8 @@ func eqInts(a, b []int) bool {
 
 // ---------------------------------------------------------------- deterministic histories
 
-const watchdog = 20 * time.Second
+// watchdog only bounds hangs (no progress at all for this long); verdicts never depend on it otherwise
+const watchdog = 60 * time.Second
 
 type detResult struct {
 	packs []string // one line per pack, driver syntax
